@@ -463,8 +463,17 @@ def gen_messages(ctx):
             p = (mask(rng.randrange(TWO32), l), l)
             out.append((asn4, {'withdraw': [p] if rng.random() < 0.3 else [], 'attrs': [(tc, rand_attr(rng, tc, asn4))],
                                'nlri': [p]}, None, 'len-x-attr'))
+    # thorough: all 33 lengths x every attribute singleton, exhaustively
+    if ctx.thorough:
+        for asn4 in (False, True):
+            for tc, v in attr_singletons(ctx, asn4):
+                if tc == 2 and sum(len(a) for _, a in v[1]) > 70:
+                    continue
+                for l in range(33):
+                    p = (mask(rng.randrange(TWO32), l), l)
+                    out.append((asn4, {'withdraw': [], 'attrs': [(tc, v)], 'nlri': [p]}, None, 'len-x-single'))
     # combinations, announce + withdraw
-    for _ in range(1500 if ctx.thorough else 150):
+    for _ in range(4000 if ctx.thorough else 150):
         asn4 = rng.random() < 0.5
         tcs = rng.sample(ALL_TC, rng.randrange(0, len(ALL_TC) + 1))
         if rng.random() < 0.3:
@@ -823,8 +832,8 @@ def run(ctx):
                               impl_parse_attributes(x, asn4), ['parse_attributes', asn4, x.hex()]))
     # ---- malformed stream for Update.parse ----
     per = 4 if ctx.thorough else 1
-    for asn4, body in bodies:
-        if len(body) > 1500:
+    for bi, (asn4, body) in enumerate(bodies):
+        if len(body) > 1500 or (len(bodies) > 8000 and bi % 3):
             continue
         for x in mutations(rng, body, per):
             if not modelled_body(x):
